@@ -224,11 +224,21 @@ func Run(w *core.WorkerCtx, k int, prop string) *core.CaseResult {
 			}
 			spec.Sizes[i] = [2]int{kept, total - kept}
 		}
+		if spec.Collect > 0 && k%4 == 1 {
+			// two ordinary targets only, and one whose answer exceeds the limit just because of the two collectors
+			// (6700-6900 + 2 x 700): with one collector it would fit an empty shard, so it must not be assigned
+			for i := 2; i < nT; i++ {
+				delete(spec.Sizes, i)
+			}
+			nT = 2
+			spec.Sizes[nT] = [2]int{200, 6500 + r.Intn(200)}
+			nT++
+		}
 		spec.Sizes[nT] = [2]int{100, 8000 + r.Intn(2000)}
 		nT++
-		// the first answer of one big target breaks off after 40 lines with a TCP reset (the exporter was killed):
+		// the first answer of one big target, and of the oversized one, breaks off after 40 lines with a TCP reset (the exporter was killed):
 		// that is a failed probe, its 40 lines are no estimate
-		spec.ResetFirst = []int{r.Intn(nT - 1)}
+		spec.ResetFirst = []int{r.Intn(nT - 1), nT - 1} // one of the big ones, and the oversized one
 	}
 	res.Sig = fmt.Sprintf("real-loop/%s/%s/%v", workload, fault, spec.Sizes)
 	dir := filepath.Join(w.Scratch, fmt.Sprintf("e7-%s-%d", prop, k))
